@@ -15,6 +15,7 @@
  * 51 Franklin Street, Fifth Floor, Boston, MA 02110-1301 USA.
  */
 
+#include <cmath>
 #include <string>
 
 #include "oomd/Log.h"
@@ -37,8 +38,32 @@ std::unordered_set<CgroupPath> PluginArgParser::parseCgroup(
   return res;
 }
 
+namespace {
+// std::sto* happily stop at the first character they do not understand
+// ("12abc" -> 12); an argument value has to be consumed entirely
+template <typename T, typename F>
+T parseWhole(const std::string& str, F&& convert) {
+  size_t pos = 0;
+  T res = convert(str, &pos);
+  if (pos != str.size()) {
+    throw std::invalid_argument("trailing characters in \"" + str + "\"");
+  }
+  return res;
+}
+
+template <typename T, typename F>
+T parseFinite(const std::string& str, F&& convert) {
+  T res = parseWhole<T>(str, std::forward<F>(convert));
+  if (!std::isfinite(res)) {
+    throw std::invalid_argument("must be a finite number");
+  }
+  return res;
+}
+} // namespace
+
 int PluginArgParser::parseUnsignedInt(const std::string& intStr) {
-  int res = std::stoi(intStr);
+  int res = parseWhole<int>(
+      intStr, [](const std::string& s, size_t* pos) { return std::stoi(s, pos); });
   if (res < 0) {
     throw std::invalid_argument("must be non-negative");
   }
@@ -105,22 +130,30 @@ std::unordered_set<std::string> PluginArgParser::validArgNames() {
 
 template <>
 int64_t PluginArgParser::parseValue(const std::string& valueString) {
-  return std::stoull(valueString);
+  return parseWhole<int64_t>(
+      valueString,
+      [](const std::string& s, size_t* pos) { return std::stoll(s, pos); });
 }
 
 template <>
 int PluginArgParser::parseValue(const std::string& valueString) {
-  return std::stoi(valueString);
+  return parseWhole<int>(
+      valueString,
+      [](const std::string& s, size_t* pos) { return std::stoi(s, pos); });
 }
 
 template <>
 double PluginArgParser::parseValue(const std::string& valueString) {
-  return std::stod(valueString);
+  return parseFinite<double>(
+      valueString,
+      [](const std::string& s, size_t* pos) { return std::stod(s, pos); });
 }
 
 template <>
 float PluginArgParser::parseValue(const std::string& valueString) {
-  return std::stof(valueString);
+  return parseFinite<float>(
+      valueString,
+      [](const std::string& s, size_t* pos) { return std::stof(s, pos); });
 }
 
 template <>
@@ -145,7 +178,9 @@ std::string PluginArgParser::parseValue(const std::string& valueString) {
 template <>
 std::chrono::milliseconds PluginArgParser::parseValue(
     const std::string& valueString) {
-  return std::chrono::milliseconds(std::stoll(valueString));
+  return std::chrono::milliseconds(parseWhole<int64_t>(
+      valueString,
+      [](const std::string& s, size_t* pos) { return std::stoll(s, pos); }));
 }
 
 template <>
